@@ -3,6 +3,15 @@ import traceback
 from fractions import Fraction as Fr
 
 
+def oracle_rounded(t, v, b, factor, decimals):
+    """the statement's sum with a threshold factor and rounding: scaled thresholds, parts and products rounded (numpy.round)"""
+    import numpy
+    rnd = (lambda x: float(numpy.round(x, decimals))) if decimals is not None else (lambda x: x)
+    n = len(t)
+    th = [rnd(factor * float(x)) for x in t] + [float("inf")]
+    return sum(rnd(float(v[k]) * rnd(max(min(float(b), th[k + 1]) - th[k], 0.0))) for k in range(n))
+
+
 def oracle(kind, t, v, b):
     n = len(t)
     if kind == "marginal_rate":
@@ -37,10 +46,14 @@ def run(call):
         for a, b in zip(t, v):
             s.add_bracket(float(a), float(b))
         bases = [Fr(x).limit_denominator(1000) for x in call["bases"]]
-        got = s.calc(numpy.array([float(b) for b in bases]))
+        factor, decimals = call.get("factor"), call.get("decimals")
+        if factor is not None or decimals is not None:
+            got = s.calc(numpy.array([float(b) for b in bases]), factor=float(factor or 1.0), round_base_decimals=decimals)
+        else:
+            got = s.calc(numpy.array([float(b) for b in bases]))
         bad = []
         for b, g in zip(bases, got):
-            exp = oracle(kind, t, v, b)
+            exp = oracle(kind, t, v, b) if factor is None and decimals is None else oracle_rounded(t, v, b, float(factor or 1.0), decimals)
             if exp is None:
                 continue
             if abs(float(g) - float(exp)) > 1e-6 * max(1.0, abs(float(exp))):
